@@ -18,7 +18,11 @@ CASE_TIMEOUT = {'quick': 240, 'thorough': 900}
 ASSUMPTIONS = ['planted labels and prototypes are the ground truth by construction']
 
 
-def prototypes(rng, K, D, real):
+def prototypes(rng, K, D, real, axis_aligned=False):
+    if axis_aligned:
+        # K of the coordinate axes (exactly orthonormal, exact zeros in every prototype), with arbitrary phases / signs
+        P = np.eye(D)[rng.permutation(D)[:K]].astype(float if real else complex)
+        return P * (rng.choice([-1.0, 1.0], size=(K, 1)) if real else np.exp(2j * np.pi * rng.uniform(size=(K, 1))))
     for _ in range(10000):
         P = rng.standard_normal((K, D)) if real else gen.cnormal(rng, (K, D))
         P = oracles.unit(P)
@@ -89,9 +93,25 @@ def plan(tier, seed):
             iters = 20 if (tier == 'thorough' or r % 3 == 0) else int(pick([3, 5, 10]))
             if kind == 'cbmm':
                 iters = int(pick([2, 3, 5]))
-            cases.append(dict(kind=kind, K=K, D=D, E=E, N=N, lead=lead, blur=blur, init_dtype=pick(['float', 'float', 'bool', 'int']), pert=float(10 ** rng.uniform(-9 if kind != 'cbmm' else -4, -2)),   # cBMM: a (nearly) rank-one class scatter makes its trainer raise by design (assert / least_squares)
+            cases.append(dict(kind=kind, K=K, D=D, E=E, N=N, lead=lead, blur=blur, init_dtype=pick(['float', 'float', 'bool', 'int']), pert=float(10 ** rng.uniform(-9 if kind != 'cbmm' else -4, -2)) if (kind not in ('cacgmm', 'cwmm', 'vmfmm') or rng.uniform() > 0.12) else 0.0, axis_aligned=bool(rng.uniform() < 0.15),   # cBMM: a (nearly) rank-one class scatter makes its trainer raise by design (assert / least_squares)
                              
                               iters=iters, opts=o, rs=[seed, 3, i]))
+            i += 1
+    # the corner of the domain: as many channels as classes (D == K), prototypes exactly on coordinate axes (the orthonormal limit),
+    # noise-free or nearly noise-free classes - closed forms for small D and exact zeros in the class statistics live here
+    for kind in ('cwmm', 'cacgmm', 'vmfmm'):
+        for r in range(S(tier, 4, 30)):
+            K = int(pick([2, 2, 3]))
+            o = scen.sample_opts(rng, kind, [])
+            o.pop('mask', None); o.pop('aligner', None)
+            o['saliency'] = 'none'
+            if kind == 'vmfmm':
+                o['min_concentration'] = 1e-10
+            if 'affiliation_eps' in o:
+                o['affiliation_eps'] = pick([0.0, 1e-10])
+            lead = pick([[], [2]])
+            cases.append(dict(kind=kind, K=K, D=K, E=K, N=K * (K + 2) + int(rng.integers(0, 8)), lead=lead, blur=0.0 if r % 2 else 0.1, init_dtype='float',
+                              pert=float(pick([0.0, 0.0, 1e-9, 1e-6])), axis_aligned=True, iters=int(pick([1, 3, 10])), opts=o, rs=[seed, 3, i]))
             i += 1
     return cases
 
@@ -112,7 +132,7 @@ def build(case):
         P = np.empty((*lead, K, D), dtype=complex)
         y = np.empty((*lead, N, D), dtype=complex)
         for idx in np.ndindex(*lead):
-            P[idx] = prototypes(rng, K, D, real=False)
+            P[idx] = prototypes(rng, K, D, real=False, axis_aligned=case.get('axis_aligned', False))
             lab[idx] = labels(rng, K, N, max(D, E) if kind in models.INTEGRATION else D)
             noise = gen.cnormal(rng, (N, D)) * pert
             g = gen.gains(rng, (N, 1), decades=20)
@@ -138,7 +158,7 @@ def build(case):
         scale = 1.0 if kind == 'vmfmm' else float(rng.uniform(1, 5))
         A = gen.hpd(rng, D, cond=9.0, real=True)
         for idx in np.ndindex(*lead):
-            P[idx] = prototypes(rng, K, D, real=True)
+            P[idx] = prototypes(rng, K, D, real=True, axis_aligned=case.get('axis_aligned', False))
             lab[idx] = labels(rng, K, N, D)
             noise = rng.standard_normal((N, D)) @ np.linalg.cholesky(A).T / 3 * pert
             y[idx] = scale * (P[idx][lab[idx]] + noise)
